@@ -77,6 +77,30 @@ impl<'a> Sx<'a> {
         let rt = o.rsplit("rt=").next().unwrap_or("").to_string();
         self.out.stats.inc(&format!("pgn_roundtrip.rt_{rt}"));
         self.out.emit("g.pgn", &o);
+        // the regex tokenizer on the exported text and on mutations of it (model: Model/PgnRegex.lean)
+        if let Some(text) = self.sess.game.as_ref().and_then(|g| catch(|| g.as_pgn())) {
+            let pats = pgn_patterns();
+            let mut variants: Vec<String> = vec![text.clone(), text.replace('\n', "\r\n")];
+            let bytes: Vec<char> = text.chars().collect();
+            let n = bytes.len().max(1);
+            let alphabet: Vec<char> = "NBRQKOabcdefgh12345678x=+#-./ \n0?*\r".chars().collect();
+            let mut h: u64 = 0x9e3779b97f4a7c15 ^ (n as u64);
+            let mut next = |m: usize| -> usize { h ^= h << 13; h ^= h >> 7; h ^= h << 17; (h % m as u64) as usize };
+            for _ in 0..6 {
+                let mut v = bytes.clone();
+                match next(4) {
+                    0 => { let i = next(n); if i < v.len() { v.remove(i); } }
+                    1 => { let i = next(n + 1).min(v.len()); v.insert(i, alphabet[next(alphabet.len())]); }
+                    2 => { let i = next(n); if i < v.len() { v[i] = alphabet[next(alphabet.len())]; } }
+                    _ => { let i = next(n).min(v.len()); let j = (i + 1 + next(12)).min(v.len()); let seg: Vec<char> = v[i..j].to_vec(); for (k, c) in seg.into_iter().enumerate() { v.insert(j + k, c); } }
+                }
+                variants.push(v.into_iter().collect());
+            }
+            for v in variants {
+                self.out.stats.inc("pgn.rx_texts");
+                self.out.emit(&format!("rx {}", hex(&v)), &obs_rx(&pats, &v));
+            }
+        }
     }
 
     fn end(&mut self) {
